@@ -9,10 +9,10 @@ From SS.gen Require Import SrcFacts.
    at most once — so an additional entry can only be one the frame is currently entering or
    exiting; and there is an is_exiting entry (last, once, right is_async) exactly when an exit
    call is in progress. *)
-Theorem C20_fallback_sound : forall c t ct, checkk KRef c t ct = true ->
-  forall s, reach c t s ->
+Theorem C20_fallback_sound : forall v c t ct, checkk v KRef c t ct = true ->
+  forall s, reach v c t s ->
   forall lasti st tr, In (false, lasti, st, tr) (obs c s) ->
-  ref_sound tr (referents c t lasti st).
+  ref_sound tr (referents v c t lasti st).
 Proof. exact referents_sound. Qed.
 Print Assumptions C20_fallback_sound.
 
@@ -24,13 +24,13 @@ Print Assumptions C20_guard_present.
 
 (* with that guard, contexts_active_in_frame never raises, whatever fails inside the trickery
    branch, and a failure yields exactly the referents-mode answer plus a warning *)
-Theorem C20_failure_warns : forall enabled c t running lasti (st : list (val nat)),
-  contexts_active SrcFacts.trickery_failure_guarded enabled c t running lasti st <> CafRaise
-  /\ (trickery c t running lasti st = TFail ->
-      contexts_active SrcFacts.trickery_failure_guarded true c t running lasti st
-      = CafRef (referents c t lasti st) true)
-  /\ contexts_active SrcFacts.trickery_failure_guarded false c t running lasti st
-     = CafRef (referents c t lasti st) false.
+Theorem C20_failure_warns : forall v enabled c t running lasti (st : list (val nat)),
+  contexts_active v SrcFacts.trickery_failure_guarded enabled c t running lasti st <> CafRaise
+  /\ (trickery v c t running lasti st = TFail ->
+      contexts_active v SrcFacts.trickery_failure_guarded true c t running lasti st
+      = CafRef (referents v c t lasti st) true)
+  /\ contexts_active v SrcFacts.trickery_failure_guarded false c t running lasti st
+     = CafRef (referents v c t lasti st) false.
 Proof.
   intros. change SrcFacts.trickery_failure_guarded with true.
   split; [apply caf_never_raises|]. split; [apply caf_failure_falls_back|reflexivity].
@@ -53,14 +53,14 @@ Theorem C20_mode_switch : forall detect s v ops,
 Proof. intros. split; [apply tr_run_after_set|apply tr_run_after_reset]; assumption. Qed.
 Print Assumptions C20_mode_switch.
 
-Example C20_example_check : checkk KRef ex_code ex_table ex_cert = true.
+Example C20_example_check : checkk V312 KRef ex_code ex_table ex_cert = true.
 Proof. vm_compute. reflexivity. Qed.
 Example C20_example_in_aexit :
-  exists s, reach ex_code ex_table s /\
+  exists s, reach V312 ex_code ex_table s /\
             exists lasti st tr, In (false, lasti, st, tr) (obs ex_code s)
-              /\ map (@r_exiting nat) (referents ex_code ex_table lasti st) = [false; false; true].
+              /\ map (@r_exiting nat) (referents V312 ex_code ex_table lasti st) = [false; false; true].
 Proof.
-  destruct (exec ex_code ex_table ex_path_aexit (mk 0 [] [])) as [s|] eqn:E; [|vm_compute in E; discriminate].
+  destruct (exec V312 ex_code ex_table ex_path_aexit (mk 0 [] [])) as [s|] eqn:E; [|vm_compute in E; discriminate].
   exists s. split; [eapply exec_reach; [apply reach_init|exact E]|].
   vm_compute in E. inversion E; subst; clear E.
   eexists _, _, _. split; [left; reflexivity|vm_compute; reflexivity].
